@@ -297,6 +297,18 @@ static void archive_target(Src &s, Case &c)
     const Entry &e = FAMILY[s.below(NFAMILY)];
     e.run(s, c, e.name);
 }
+static void archive_defaults_target(Src &s, Case &c)
+{
+    if (s.coin())
+        run_type<SE>(s, c, "SE");
+    else
+        run_type<SF>(s, c, "SF");
+    c.label("defaults_struct");
+}
+VP_TARGET("archive_defaults", archive_defaults_target,
+          "reflect() structs whose default-constructed members are not empty (string \"dflt\", vector{1,2,3}, map with two entries, vector<string>, "
+          "vector<uint8>/vector<double> with elements) x two generated values, empty containers included: the same round trip, consumed == produced and wire "
+          "format checks as archive — deserialize<T>() starts from the default object, so every member must be replaced, not appended to");
 VP_TARGET("archive", archive_target,
           "type drawn from a 35-member compile-time family (8 fixed-width integers, float, double, string, "
           "igris::buffer forms, vectors of scalars/strings/vectors/pairs/structs, pairs, tuples of 1-4, 3 maps, 4 "
